@@ -250,14 +250,15 @@ def schedule_text(trace):
     parts = []
     for r in trace[1:]:
         ev = r["ev"]
+        fm = {1: "/16B", 2: "/4B", 3: "/str"}.get(r.get("f"), "")
         if ev == "...":
             parts.append("...")
         elif ev in ("Open",):
-            parts.append("Open(c%d,ip%d)" % (r["c"], r["ip"]))
+            parts.append("Open(c%d,ip%d%s)" % (r["c"], r["ip"], fm))
         elif ev == "Auth":
             parts.append("Auth(c%d,k%d)" % (r["c"], r["key"]))
         elif ev == "NatAdd":
-            parts.append("NatAdd(c%d,ip%d,k%d)" % (r["c"], r["ip"], r["key"]))
+            parts.append("NatAdd(c%d,ip%d%s,k%d)" % (r["c"], r["ip"], fm, r["key"]))
         elif ev in ("Close", "NatRemove", "RemoveAgain", "Probe", "Packet"):
             parts.append("%s(c%d)" % (ev, r["c"]))
         elif ev == "Tick":
